@@ -86,7 +86,8 @@ pub fn lockstep(ctx: &Ctx, p0: &Pos, l: &mut Local, c01: bool, c02: bool) -> Vec
     }
     if c02 {
         for (m, n) in &orc {
-            if let Some((_, s)) = imp.iter().find(|x| x.0 == *m) {
+            // pair by coordinates: a wrong attribute (C01's business) must not hide a wrong successor
+            if let Some((_, s)) = imp.iter().find(|x| x.0.from == m.from && x.0.to == m.to && x.0.promo == m.promo) {
                 let got = from_state(s);
                 if got != *n {
                     ctx.violation(
